@@ -116,6 +116,14 @@ def Item.isGlue : Item → Bool
 
 def sumW (l : List Int) : Int := l.foldl (· + ·) 0
 
+/-- Is index `b` one of the nodes replaced by an earlier discretionary? TeX.2021.869 steps over
+them, so none of them is tried as a breakpoint (only an explicit kern could be). -/
+def insideReplaced (items : List Item) (b : Nat) : Bool :=
+  (List.range b).any fun a =>
+    match items[a]? with
+    | some (.disc _ _ r) => b < a + 1 + r
+    | _ => false
+
 /-- The raw `(penalty, hyphenated)` of a legal breakpoint (§866–§869), before the clamp. -/
 def rawBreak (x : Inst) (b : Nat) : Option (Int × Bool) :=
   if b = x.n then some (-10000, true)        -- the final break (§873)
@@ -127,6 +135,7 @@ def rawBreak (x : Inst) (b : Nat) : Option (Int × Bool) :=
         then some (0, false) else none
     | some (.kern e _) =>
         if e ∧ autoAt x.items b ∧ ((x.items[b + 1]?).map Item.isGlue).getD false
+            ∧ ¬ insideReplaced x.items b
         then some (0, false) else none
     | some (.math _) =>
         if autoAt x.items b ∧ ((x.items[b + 1]?).map Item.isGlue).getD false
